@@ -99,12 +99,12 @@ class CallGen:
             P = ch.choice(WIDE_T[:2], "P")
             R = None
             body = [("regassign", "RdV", ("bin", ch.choice(["+", "^", "-"], "vop"), ("var", "v"), ("lit", ch.choice([1, 3, 16], "vlit"), P)), ("s", 32))]
-            params = [(("ext", "HexInsnPktBundle *"), "bundle"), (("ext", "const HexOp *"), "RdV"), (P, "v")]
+            params = self.shuffled([(("ext", "HexInsnPktBundle *"), "bundle"), (("ext", "const HexOp *"), "RdV"), (P, "v")])
         elif kind == "ext_write_ret":
             P = ch.choice(WIDE_T[:2], "P")
             R = P
             body = [("regassign", "RdV", ("bin", "+", ("var", "v"), ("lit", 2, P)), ("s", 32)), ("return", ("var", "v"))]
-            params = [(("ext", "HexInsnPktBundle *"), "bundle"), (("ext", "const HexOp *"), "RdV"), (P, "v")]
+            params = self.shuffled([(("ext", "HexInsnPktBundle *"), "bundle"), (("ext", "const HexOp *"), "RdV"), (P, "v")])
         elif kind == "pc_read":
             P = ("u", 32)
             R = self.pick(ALL_T, lambda r: not (A and f5b(P, r)), "R")
@@ -178,6 +178,21 @@ class CallGen:
         self.order.append(name)
         return f
 
+    def shuffled(self, params):
+        """The packet data need not be the first parameter: any order of (bundle, register operand, value)."""
+        if self.ch.chance(1, 2, "param-order-canonical"):
+            return params
+        params = list(params)
+        out = []
+        while params:
+            out.append(params.pop(self.ch.draw(len(params), "param-order")))
+        return out
+
+    @staticmethod
+    def byref_args(f, arg):
+        """Arguments of a call of a routine with pass-through parameters, in the routine's own parameter order."""
+        return [("ext", pn) if pt[0] == "ext" else arg for pt, pn in f["params"]]
+
     def value_funcs(self):
         return [n for n in self.order if self.funcs[n]["ret"] is not None and all(pt[0] != "ext" for pt, _ in self.funcs[n]["params"])]
 
@@ -193,14 +208,24 @@ class CallGen:
         return out
 
     @staticmethod
-    def failing_registration(f):
-        """The same name and signature with a body the compiler rejects (unsupported loop) - a registration that
-        raises must leave nothing behind, so the corrected body registered afterwards is the one that runs."""
+    def failing_registration(f, variant=0):
+        """The same name and signature with a body the compiler rejects - a registration that raises must leave nothing
+        behind, so the corrected body registered afterwards is the one that runs.
+        variant 0: unsupported loop in front; 1: a call of an unknown routine while another call of the same expression is
+        pending; 2: the same with a pending postfix increment; 3: the unsupported loop after the body's own statements"""
         good = cref.show_stmts(f["body"])
         p0 = [n for t, n in f["params"] if t[0] != "ext"][0]
-        return {"name": f["name"], "ret": cref.show_type(f["ret"]),
-                "params": CallGen.param_decl(f),
-                "body": "{ while (" + p0 + ") { " + p0 + " = " + p0 + " - 1; } " + good + " }"}
+        loop = "while (" + p0 + ") { " + p0 + " = " + p0 + " - 1; }"
+        if variant == 1:
+            body = "{ uint32_t frq = clo32((uint32_t) " + p0 + ") + vf_never_registered((uint32_t) " + p0 + "); " + good + " }"
+        elif variant == 2:
+            body = "{ int32_t fri = 0; int32_t frj = fri++ + vf_never_registered((uint32_t) " + p0 + "); " + good + " }"
+        elif variant == 3:
+            nonret = cref.show_stmts([st for st in f["body"] if st[0] != "return"])
+            body = "{ " + nonret + " " + loop + " " + cref.show_stmts([st for st in f["body"] if st[0] == "return"]) + " }"
+        else:
+            body = "{ " + loop + " " + good + " }"
+        return {"name": f["name"], "ret": cref.show_type(f["ret"]), "params": CallGen.param_decl(f), "body": body}
 
     @staticmethod
     def registration(f):
@@ -238,7 +263,7 @@ class CallGen:
         pool = user * 3 + bundled
         form = ch.weighted([("single", 5), ("two_calls", 5), ("parked", 4), ("arg_call", 3), ("three_calls", 2), ("cond_calls", 1),
                             ("const_cond_calls", 2), ("reassign", 3), ("void_call", 4 if voids else 0), ("loop_cond_call", 2),
-                            ("branch_call", 4 if voids else 0)], "cform")
+                            ("branch_call", 4 if voids else 0), ("two_byref_calls", 3 if voids else 0), ("logic_calls", 3)], "cform")
         stmts = []
         srcs = ["RssV", "RttV"]
 
@@ -318,7 +343,7 @@ class CallGen:
             else:
                 A_ = self.arg_for(P, "RssV", "A")
                 arg = ("cast", A_, ("reg", "RssV", ("s", 64)))
-            stmts.append(("expr", ("call", f["name"], [("ext", "bundle"), ("ext", "RdV"), arg])))
+            stmts.append(("expr", ("call", f["name"], self.byref_args(f, arg))))
             outs = [("@RdV", ("s", 32))]
             uses = [f["name"], g["name"]]
         elif form == "branch_call":
@@ -328,7 +353,7 @@ class CallGen:
             P = [pt for pt, _ in f["params"] if pt[0] != "ext"][0]
             A_ = self.arg_for(P, "RssV", "A")
             arg = ("cast", A_, ("reg", "RssV", ("s", 64)))
-            callst = ("expr", ("call", f["name"], [("ext", "bundle"), ("ext", "RdV"), arg]))
+            callst = ("expr", ("call", f["name"], self.byref_args(f, arg)))
             other = ("regassign", "RdV", ("lit", ch.choice([0, 7, 0x1234], "blit"), ("s", 32)), ("s", 32))
             cond = ("cmp", ch.choice(["<", ">=", "=="], "bcmp"), ("reg", "RssV", ("s", 64)), ("reg", "RttV", ("s", 64)))
             if ch.chance(1, 2, "call-in-else"):
@@ -337,6 +362,49 @@ class CallGen:
                 stmts.append(("if", cond, [callst], [other]))
             outs = [("@RdV", ("s", 32))]
             uses = [f["name"]]
+        elif form == "two_byref_calls":
+            # two calls that write the same by-reference register operand, as statements of one block: they run in source order
+            valued = [x for x in voids if x["ret"] is not None]
+            fs = [ch.choice(valued if valued and ch.chance(2, 3, "valued") else voids, "vf2") for _ in range(2)]
+            calls_ = []
+            for j, f in enumerate(fs):
+                P = [pt for pt, _ in f["params"] if pt[0] != "ext"][0]
+                A_ = self.arg_for(P, "RssV", "A")
+                calls_.append(("expr", ("call", f["name"], self.byref_args(f, ("cast", A_, ("reg", srcs[j], ("s", 64)))))))
+            other = ("regassign", "RdV", ("lit", ch.choice([0, 7, 0x1234], "blit"), ("s", 32)), ("s", 32))
+            cond = ("cmp", ch.choice(["<", ">=", "=="], "bcmp"), ("reg", "RssV", ("s", 64)), ("reg", "RttV", ("s", 64)))
+            if ch.chance(1, 2, "call-in-else"):
+                stmts.append(("if", cond, [other], calls_))
+            else:
+                stmts.append(("if", cond, calls_, [other]))
+            outs = [("@RdV", ("s", 32))]
+            uses = [f["name"] for f in fs]
+        elif form == "logic_calls":
+            # !, && and || applied directly to call results (int 0/1 in C), then the same routine's result where a
+            # conversion is needed
+            f = ch.choice(pool, "f")
+            same = [g for g in pool if g["ret"] == f["ret"]]
+            g = ch.choice(same, "g")
+            lop = ch.choice(["lnot", "land", "lor"], "lop")
+            l = fresh(3)
+            if lop == "lnot":
+                e = ("lnot", call(f, 0))
+                uses = [f["name"]]
+            else:
+                e = (lop, call(f, 0), call(g, 2))
+                uses = [f["name"], g["name"]]
+            # (as a branch condition: what type a stored logical result has is not this property's subject)
+            stmts.append(("decl", ("s", 32), l, ("lit", 0, ("s", 32))))
+            stmts.append(("if", e, [("assign", l, ("lit", 1, ("s", 32)))], []))
+            T = self.pick(ALL_T, lambda t: t != f["ret"] and not (self.cfg == "A" and f5a(f["ret"], t)), "T") or f["ret"]
+            out = fresh(5)
+            second = call(f, 1)
+            if ch.chance(1, 2, "logic-then-sum"):
+                second = ("bin", "+", second, call(g, 3 if self.cfg == "A" else 0))
+                T = self.pick(ALL_T, lambda t: not (self.cfg == "A" and f5a(cref.promote(f["ret"]), t)), "T2") or cref.promote(f["ret"])
+                uses.append(g["name"])
+            stmts.append(("decl", T, out, second))
+            outs = [(l, ("s", 32)), (out, T)]
         elif form == "loop_cond_call":
             # a call inside a loop condition
             f = ch.choice(pool, "f")
@@ -413,7 +481,7 @@ def to_json(x):
     return x
 
 
-_TAGS = {"lit", "var", "reg", "cast", "bin", "shift", "cmp", "neg", "not", "cond", "call", "postinc",
+_TAGS = {"lit", "var", "reg", "cast", "bin", "shift", "cmp", "neg", "not", "lnot", "land", "lor", "cond", "call", "postinc",
          "decl", "assign", "regassign", "if", "return", "expr", "for", "forc", "ext", "s", "u"}
 
 
